@@ -49,6 +49,7 @@ def structures(tier):
                 if tier == 'thorough' and m == 3 and (p not in (0, 3, 8) or len(names) > 1):
                     continue
                 sts.append({'kind': 'single', 'names': names, 'pad': p, 'm': m})
+    sts.append({'kind': 'long', 'm': 20000 if tier == 'quick' else 70000, 'pad': 5})
     for n1, n2 in ([(['a'], []), (['a', 'b'], ['c']), ([N19], ['a', 'a'])] if tier == 'quick' else
                    [(['a'], []), (['a', 'b'], ['c']), ([N19], ['a', 'a']), ([], ['x']), (['a', 'b', 'c'], ['d', 'e'])]):
         sts.append({'kind': 'reparse', 'names1': n1, 'names2': n2, 'pad': 2, 'm': 1})
@@ -56,6 +57,8 @@ def structures(tier):
 
 
 def weight(st):
+    if st['kind'] == 'long':
+        return 1000
     return st['m'] * 10 + len(st.get('names', st.get('names2', [])))
 
 
@@ -126,9 +129,55 @@ def _parse(ctx, parser, data):
     return evs, err
 
 
+def run_long(ctx, st):
+    """a long dump of concrete pseudo-random records (seeded) with one symbolic record in the middle: the decoding of a
+    record does not depend on how many records precede it (block-wise readers, caches)"""
+    import random
+    rng = random.Random(20260101 + st['m'])
+    m = st['m']
+    mid = m // 2 + 17
+    recs = []
+    for i in range(m):
+        if i == mid:
+            recs.append(None)
+        else:
+            b = bytearray(rng.getrandbits(8) for _ in range(64))
+            if i == 0 and b[0] == 0:
+                b[0] = 1
+            if i % 9973 == 5:
+                b = bytearray(64)           # an all-zero record somewhere inside the dump
+            recs.append(bytes(b))
+    sym = ctx.bytes('rec', 64)
+    head = K.v2_file([(0x1d3, 7, b'procA')], st['pad'], recs[:mid])
+    tail = b''.join(recs[mid + 1:])
+    data = head + sym + tail
+    parser = _parser(ctx)
+    evs, err = _parse(ctx, parser, data)
+    ctx.check('C02/long/no-error', err is None, '%s: %s' % (type(err).__name__, err))
+    ctx.check('C02/long/count', len(evs) == m, '%d events for %d records' % (len(evs), m))
+    bad = None
+    for i in range(min(m, len(evs))):
+        if i == mid:
+            continue
+        spec = K.Rec(recs[i])
+        e = evs[i]
+        if not (e.timestamp == spec.timestamp and e.tid == spec.tid and e.debugid == spec.debugid and e.data == spec.data):
+            bad = i
+            break
+    ctx.check('C02/long/each-event-is-its-record', bad is None, 'event %s is not the decoding of record %s' % (bad, bad))
+    if len(evs) > mid:
+        spec = K.Rec(sym)
+        e = evs[mid]
+        ctx.check('C02/long/symbolic-record', And(e.timestamp == spec.timestamp, e.data == spec.data, e.tid == spec.tid,
+                                                  e.debugid == spec.debugid))
+    ctx.reach()
+
+
 def run(ctx, st):
     if st['kind'] == 'reparse':
         return run_reparse(ctx, st)
+    if st['kind'] == 'long':
+        return run_long(ctx, st)
     threads = _mk_threads(ctx, st['names'])
     records = [ctx.bytes('rec%d' % i, 64) for i in range(st['m'])]
     data = K.v2_file(threads, st['pad'], records)
